@@ -31,3 +31,7 @@ theorem RdfModel.C01.Witness.roundtrip (ascii : Bool) :
   nquads_roundtrip Gen.nquads gen_nquads_ok _ ascii _ Witness.labelsOK _ Witness.wf
 
 #print axioms RdfModel.C01.Witness.roundtrip
+
+#print axioms RdfModel.C01.opts_ascii_last_set_wins
+#print axioms RdfModel.C01.opts_ascii_unset_keeps
+#print axioms RdfModel.C01.opts_ascii_default
